@@ -96,6 +96,14 @@ def run(ctx, build, verdict, ev):
                 tbl = vlib.RECORDER.take()
             if za.shape != yarr.shape or not all(vlib.same_float(a, b) for a, b in zip(za, zs)):
                 verdict.add_violation(f"{name}:array", f"{name}{p}.tsukamoto: array result differs from element-by-element results", {"term": name, "params": p}); nviol += 1
+            try:
+                with np.errstate(all="ignore"):
+                    zl = np.asarray(real.tsukamoto([float(v) for v in yarr[:5]]), dtype=float)
+                    zt = np.asarray(real.tsukamoto(tuple(float(v) for v in yarr[:5])), dtype=float)
+                if not (all(vlib.same_float(a, b) for a, b in zip(zl, zs[:5])) and all(vlib.same_float(a, b) for a, b in zip(zt, zs[:5])) and zl.shape == (min(5, len(zs)),)):
+                    verdict.add_violation(f"{name}:list-argument", f"{name}{p}.tsukamoto(list/tuple) is not the elementwise result", {"term": name, "params": p, "y": [float(v) for v in yarr[:5]]}); nviol += 1
+            except Exception as ex:  # noqa
+                verdict.add_violation(f"{name}:list-argument", f"{name}{p}.tsukamoto(list) raises {type(ex).__name__}: {ex}", {"term": name, "params": p, "y": [float(v) for v in yarr[:5]]}); nviol += 1
             a_lits.append(f"({ps_lit}, {vlib.coq_list(vlib.fhex(y) for y in yarr)}, {vlib.coq_list(vlib.fhex(z) for z in za)}, {vlib.oracle_lit(tbl)})")
             a_idx.append((name, p, [float(y) for y in yarr], [float(z) for z in za]))
             evaluations += len(yarr)
